@@ -200,6 +200,18 @@ func (k *T) CreateNewRootKey(ctx context.Context) (string, error) {
 	if er := k.keyExists(ctx, rootName); er != nil {
 		return "", er
 	}
+	// Bootstrapping over existing keys (--overwrite) starts a new chain and restarts key version
+	// naming. Retire every key version of the superseded chain first, as wipeout would, so that
+	// none of them can still sign or have its name taken by a later rotation.
+	if output.AllowOverwrite(ctx) {
+		var manager keys.ManagerInterface = k
+		if c, err := keys.FromContext(ctx); err == nil && c.Manager != nil {
+			manager = c.Manager
+		}
+		if err := manager.Wipeout(ctx); err != nil {
+			return "", err
+		}
+	}
 	if _, err := k.Signer.GenerateRootKey(rootName); err != nil {
 		return "", err
 	}
